@@ -1,6 +1,6 @@
 (** C07 — proofs for the multi-kind layer ([Multi.v]). *)
 From Coq Require Import ZArith List Bool Arith Lia.
-From KV Require Import Base.Outcome Base.Num C19.Model C06.Model C03.Model.
+From KV Require Import Base.Outcome Base.Num C19.Model C06.Model C03.Model C04.Transport.
 From KV Require Import C07.Model C07.ProofsSys C07.Multi.
 Import ListNotations.
 
@@ -674,3 +674,110 @@ Lemma p_slot_calls :
      (forall c', c' <> c -> bufs s' c' = bufs s c') /\
      (rp s' = RBetween \/ rp s' = RDrain (S c) RStart)).
 Proof. exact (conj do_write_is_slot_write drain_is_slot_read). Qed.
+
+(** * the decoder-side kinds of a streaming sound *)
+Section DecoderThm.
+  Variable fuel : nat.
+  Variable nf : Z.
+  Variable region_of : val -> option (Z * Z).
+  Variable by_idx : val -> Z.
+  Variable to_idx : val -> Z.
+  Notation dapply := (dec_apply fuel nf region_of by_idx to_idx).
+
+  (** one decoder step: the new region, then seek_by, then seek_to, the last command of each kind *)
+  Definition dec_step_effect (iv : list (nat * val)) (s : outcome transport) : outcome transport :=
+    let s1 := match last_of 0 iv with Some v => dapply 0 v s | None => s end in
+    let s2 := match last_of 1 iv with Some v => dapply 1 v s1 | None => s1 end in
+    match last_of 2 iv with Some v => dapply 2 v s2 | None => s2 end.
+
+  Lemma f_dec_history : forall t0 h,
+    m_state (m_exec dapply dec_order h (m_init (Ok t0))) =
+    fold_left (fun s iv => dec_step_effect iv s) (closed_intervals h) (Ok t0).
+  Proof.
+    intros t0 h. rewrite (p_multi_state _ dapply dec_order (Ok t0) h).
+    - reflexivity.
+    - repeat (constructor; [cbn; intuition discriminate|]); constructor.
+  Qed.
+
+  (** [set_loop_region r] and [seek_to p] (no [seek_by]) picked up at the same step, in whatever
+      order and multiplicity they were issued: [p] is wrapped into the NEW region *)
+  Lemma f_dec_region_then_seek : forall t iv vr vp,
+    last_of 0 iv = Some vr -> last_of 1 iv = None -> last_of 2 iv = Some vp ->
+    interval_effect dapply dec_order iv (Ok t) =
+    (let! p := match filter_region (region_of vr) with
+               | Some (ls, le) =>
+                   if (to_idx vp >? t_pos t)%Z then wrap_down fuel (to_idx vp) ls le
+                   else wrap_up_lt fuel (to_idx vp) ls le
+               | None => Ok (to_idx vp)
+               end in
+     Ok {| t_pos := p; t_loop := filter_region (region_of vr);
+           t_playing := if (p >=? nf)%Z then false else t_playing t |}).
+  Proof.
+    intros t iv vr vp H0 H1 H2. unfold interval_effect, dec_order. cbn [fold_left]. unfold kind_effect.
+    rewrite H0, H1, H2. reflexivity.
+  Qed.
+
+  Lemma f_dec_clear_then_seek : forall t iv vr vp,
+    last_of 0 iv = Some vr -> last_of 1 iv = None -> last_of 2 iv = Some vp ->
+    filter_region (region_of vr) = None ->
+    interval_effect dapply dec_order iv (Ok t) =
+    Ok {| t_pos := to_idx vp; t_loop := None; t_playing := if (to_idx vp >=? nf)%Z then false else t_playing t |}.
+  Proof.
+    intros t iv vr vp H0 H1 H2 HN. rewrite (f_dec_region_then_seek t iv vr vp H0 H1 H2). rewrite HN. reflexivity.
+  Qed.
+End DecoderThm.
+
+Local Open Scope Z_scope.
+(** the seeded reading on the demo's scenario: loop 0..2, at frame 1; [set_loop_region(None);
+    seek_to(5)] at the same step *)
+Definition dec_t0 : transport := {| t_pos := 1; t_loop := Some (0, 2); t_playing := true |}.
+Definition dec_iv : list (nat * val) := [(0%nat, (0, 0)); (2%nat, (5, 0))].
+Example ex_dec_real : interval_effect (decz_apply 200) dec_order dec_iv (Ok dec_t0) =
+  Ok {| t_pos := 5; t_loop := None; t_playing := true |}.
+Proof. vm_compute. reflexivity. Qed.
+Example ex_dec_seeded : interval_effect (decz_apply 200) dec_order_seeks_first dec_iv (Ok dec_t0) =
+  Ok {| t_pos := 1; t_loop := None; t_playing := true |}.
+Proof. vm_compute. reflexivity. Qed.
+(** a new region that contains the target / does not contain it *)
+Example ex_dec_new_region :
+  (interval_effect (decz_apply 200) dec_order [(2%nat, (5, 0)); (0%nat, (4, 8))] (Ok dec_t0),
+   interval_effect (decz_apply 200) dec_order [(2%nat, (9, 0)); (0%nat, (4, 8))] (Ok dec_t0),
+   interval_effect (decz_apply 200) dec_order [(1%nat, (7, 0)); (0%nat, (4, 6)); (2%nat, (3, 0))] (Ok dec_t0)) =
+  (Ok {| t_pos := 5; t_loop := Some (4, 8); t_playing := true |},
+   Ok {| t_pos := 5; t_loop := Some (4, 8); t_playing := true |},
+   Ok {| t_pos := 5; t_loop := Some (4, 6); t_playing := true |}).
+Proof. vm_compute. reflexivity. Qed.
+
+Lemma f_dec_seeded_refuted : exists t iv vr vp,
+  last_of 0 iv = Some vr /\ last_of 1 iv = None /\ last_of 2 iv = Some vp /\
+  filter_region (Some vr) = None /\
+  interval_effect (decz_apply 200) dec_order_seeks_first iv (Ok t) <>
+  Ok {| t_pos := fst vp; t_loop := None; t_playing := if fst vp >=? 200 then false else t_playing t |}.
+Proof.
+  exists dec_t0, dec_iv, (0, 0), (5, 0). repeat split. vm_compute. discriminate.
+Qed.
+Local Close Scope Z_scope.
+
+Lemma p_dec_history : forall fuel nf region_of by_idx to_idx t0 h,
+  m_state (m_exec (dec_apply fuel nf region_of by_idx to_idx) dec_order h (m_init (Ok t0))) =
+  fold_left (fun s iv => dec_step_effect fuel nf region_of by_idx to_idx iv s) (closed_intervals h) (Ok t0).
+Proof. exact f_dec_history. Qed.
+Lemma p_dec_region_then_seek : forall fuel nf region_of by_idx to_idx t iv vr vp,
+  last_of 0 iv = Some vr -> last_of 1 iv = None -> last_of 2 iv = Some vp ->
+  interval_effect (dec_apply fuel nf region_of by_idx to_idx) dec_order iv (Ok t) =
+  (let! p := match filter_region (region_of vr) with
+             | Some (ls, le) =>
+                 if (to_idx vp >? t_pos t)%Z then wrap_down fuel (to_idx vp) ls le
+                 else wrap_up_lt fuel (to_idx vp) ls le
+             | None => Ok (to_idx vp)
+             end in
+   Ok {| t_pos := p; t_loop := filter_region (region_of vr);
+         t_playing := if (p >=? nf)%Z then false else t_playing t |}) /\
+  (filter_region (region_of vr) = None ->
+   interval_effect (dec_apply fuel nf region_of by_idx to_idx) dec_order iv (Ok t) =
+   Ok {| t_pos := to_idx vp; t_loop := None; t_playing := if (to_idx vp >=? nf)%Z then false else t_playing t |}).
+Proof.
+  intros fuel nf region_of by_idx to_idx t iv vr vp H0 H1 H2. split.
+  - exact (f_dec_region_then_seek fuel nf region_of by_idx to_idx t iv vr vp H0 H1 H2).
+  - exact (f_dec_clear_then_seek fuel nf region_of by_idx to_idx t iv vr vp H0 H1 H2).
+Qed.
